@@ -460,3 +460,43 @@ def ob_null_before_fmt(f: int, kind: int, epfs: bool) -> bool:
 OBLIGATIONS.append(Ob('null_before_fmt', ob_null_before_fmt, ['0 <= f < %d' % len(NULL_FMTS), '0 <= kind < 6'], timeout=tier(200, 600), path_timeout=60,
                       data='-', selectors='null="NIL" with fmt in %r; value None / "" / [] / () / {} / 0; HTML and EPFS syntax; also with modifiers and size' % NULL_FMTS,
                       stubs='render runs untraced once the selectors are fixed on the path'))
+
+
+# ---------------------------------------------------------------- wave 4
+T_MISS_CALL = cooked('<dtml-var f missing="MISS">')
+T_MISS_SUB = cooked('<dtml-var sub missing="MISS">|<dtml-var other missing="M2" null="N2">')
+T_MISS_INNER = HTML('<dtml-var inner>')
+T_MISS_INNER.cook()
+
+
+def ob_missing_only_undefined(kind: int, defined: bool) -> bool:
+    """missing= replaces an UNDEFINED name only: a defined name whose value (a callable, a sub-template) fails with its own KeyError /
+    NameError / AttributeError still fails with that error"""
+    if kind == 0:
+        exc = KeyError('pear')
+    elif kind == 1:
+        exc = KeyError('f')
+    elif kind == 2:
+        exc = NameError('f')
+    else:
+        exc = AttributeError('f')
+
+    def f():
+        raise exc
+    if not defined:
+        return T_MISS_CALL() == 'MISS' and T_MISS_SUB() == 'MISS|M2'
+    try:
+        T_MISS_CALL(f=f)
+        return False
+    except (KeyError, NameError, AttributeError) as e:
+        if e is not exc:
+            return False
+    try:
+        T_MISS_SUB(sub=T_MISS_INNER)
+        return False
+    except KeyError as e:
+        return e.args == ('inner',)
+
+
+OBLIGATIONS.append(Ob('missing_only_for_undefined', ob_missing_only_undefined, ['0 <= kind <= 3'], timeout=tier(100, 300), data='error kind raised while computing a DEFINED value; definedness bit',
+                      selectors='missing= with a callable value raising KeyError / NameError / AttributeError and with a sub-template whose own variable is undefined'))
